@@ -419,7 +419,7 @@ Qed.
 
 Lemma dec_loop_spec P base : Good base -> val base = 10 ->
   forall f q acc, Good q -> xlen q < 2 ^ 62 -> (N.to_nat (N.size (val q)) < f)%nat ->
-  dec_loop P f q base (map dch acc) = Ok (map dch (digits_dec_fuel f (val q) acc)).
+  dec_loop P f q (Ok base) (map dch acc) = Ok (map dch (digits_dec_fuel f (val q) acc)).
 Proof.
   intros Hb Vb. induction f as [|f IH]; intros q acc Hq Hl Hf; [lia|].
   cbn [dec_loop digits_dec_fuel]. rewrite (is_zero_val q Hq). cbn [bind].
@@ -439,50 +439,89 @@ Proof.
   rewrite Vq'. pose proof (size_div10 (val q) Hnz). lia.
 Qed.
 
-(* the base `B::try_from(10u8).unwrap()` of the variant's own type: an array needs one word *)
-Lemma display_base a : Good a -> XEdit.kind_ok (kind_of a) ->
-  exists base,
-    match core a with
-    | XF w v => match f_from_uint w (lenw (wd v)) 8 10 with Ok b => Ok (XF w b) | _ => Panic end
-    | _ => let! b := d_from_uint 8 10 in Ok (XD b)
-    end = Ok base /\ Good base /\ val base = 10.
+(* a zero value leaves the loop before the base is built: `mkbase` may be anything *)
+Lemma dec_loop_zero P f q mkbase acc : Good q -> val q = 0 -> dec_loop P (S f) q mkbase acc = Ok acc.
 Proof.
-  intros Ha Hk.
-  assert (forall w n, std_width w -> 0 < n ->
-            exists base, match f_from_uint w n 8 10 with Ok b => Ok (XF w b) | _ => Panic end = Ok base /\
-                         Good base /\ val base = 10) as HF.
-  { intros w n Hw Hn. destruct (f_from_uint_spec w n 8 10 (std_width_pos w Hw) Hn eq_refl) as [_ H].
-    destruct H as (r & -> & Hc & _ & _ & Hr).
-    - change (N.size 10) with 4. pose proof (std_width_ge8 w Hw).
-      apply N.le_trans with (8 * 1); [lia|]. apply N.mul_le_mono; lia.
-    - exists (XF w r). split; [reflexivity|]. split; [apply ConvP.Good_XF; assumption|exact Hr]. }
-  assert (exists base, (let! b := d_from_uint 8 10 in Ok (XD b)) = Ok base /\ Good base /\ val base = 10) as HD.
-  { destruct (d_from_uint_spec 8 10 std_width_8 eq_refl) as (r & -> & Hc & _ & Hr). cbn [bind].
-    exists (XD r). split; [reflexivity|]. split; [apply ConvP.Good_XD; assumption|exact Hr]. }
-  destruct a as [w v|v|[|] v]; cbn [core].
-  - destruct Hk as [Hw Hn]. apply HF; assumption.
-  - exact HD.
-  - apply HF; [apply std_width_64|]. destruct Ha as [[_ Hn] _]. rewrite Hn. lia.
-  - exact HD.
+  intros Hq E. cbn [dec_loop]. rewrite (is_zero_val q Hq), E. reflexivity.
 Qed.
 
-(* `fmt_display_spec` as assigned,
-     Good a -> xlen a < 2 ^ 62 -> fmt_display P a = Ok (map (fun d => 48 + d) (digits_dec (val a))),
-   is FALSE for an array type with no storage word (Bvf<I, 0>, which `Good` admits with length 0):
-   the base ten is built with `Bvf::<I,0>::try_from(10u8).unwrap()`, whose body stores into
-   `data[0]` and panics, so Display panics instead of printing "0":
-     fmt_display Release (XF 8 (mkwv [] 0)) = Panic       (checked with Eval vm_compute)
-   It holds for every kind with at least one word (`kind_ok`, as required by the constructors). *)
-Theorem fmt_display_spec_fixed P a :
-  Good a -> XEdit.kind_ok (kind_of a) -> xlen a < 2 ^ 62 ->
+(* the base `B::try_from(10u8).unwrap()` of a fixed type with at least one storage word *)
+Lemma display_base_fixed w n : std_width w -> 0 < n ->
+  exists base, match f_from_uint w n 8 10 with Ok b => Ok (XF w b) | _ => Panic end = Ok base /\
+               Good base /\ val base = 10.
+Proof.
+  intros Hw Hn. destruct (f_from_uint_spec w n 8 10 (std_width_pos w Hw) Hn eq_refl) as [_ H].
+  destruct H as (r & -> & Hc & _ & _ & Hr).
+  - change (N.size 10) with 4. pose proof (std_width_ge8 w Hw).
+    apply N.le_trans with (8 * 1); [lia|]. apply N.mul_le_mono; lia.
+  - exists (XF w r). split; [reflexivity|]. split; [apply ConvP.Good_XF; assumption|exact Hr].
+Qed.
+
+(* ... and of the heap type *)
+Lemma display_base_dyn :
+  exists b, d_from_uint 8 10 = Ok b /\ Good (XD b) /\ val (XD b) = 10.
+Proof.
+  destruct (d_from_uint_spec 8 10 std_width_8 eq_refl) as (r & -> & Hc & _ & Hr).
+  exists r. split; [reflexivity|]. split; [apply ConvP.Good_XD; assumption|exact Hr].
+Qed.
+
+(* a fixed vector without storage words has the value 0 *)
+Lemma val_no_word w v : Good (XF w v) -> lenw (wd v) = 0 -> val (XF w v) = 0.
+Proof.
+  intros [[(_ & Hl & Hr) _] _] Hn. unfold val, xdata. cbn [xw xv] in *.
+  rewrite Hn, N.mul_0_r in Hl. assert (wl v = 0) as E by lia. rewrite E in Hr.
+  change (2 ^ 0) with 1 in Hr. lia.
+Qed.
+
+(* the digit loop of Display, whatever the variant: the fixed type builds ten inside the loop, which a
+   zero value (in particular every value of a type without storage words) never reaches *)
+Lemma display_loop P a : Good a -> xlen a < 2 ^ 62 ->
+  match core a with
+  | XF w v =>
+      dec_loop P (S (N.to_nat (xlen a))) (core a)
+               (match f_from_uint w (lenw (wd v)) 8 10 with Ok b => Ok (XF w b) | _ => Panic end) []
+  | _ =>
+      let! b := d_from_uint 8 10 in
+      dec_loop P (S (N.to_nat (xlen a))) (core a) (Ok (XD b)) []
+  end = Ok (map dch (digits_dec_fuel (S (N.to_nat (xlen a))) (val a) [])).
+Proof.
+  intros Ha Hl. pose proof (Good_core a Ha) as Hc. pose proof (size_val_le a Ha) as Hs.
+  assert (forall base, Good base -> val base = 10 ->
+            dec_loop P (S (N.to_nat (xlen a))) (core a) (Ok base) [] =
+            Ok (map dch (digits_dec_fuel (S (N.to_nat (xlen a))) (val a) []))) as HL.
+  { intros base Hb Vb.
+    pose proof (dec_loop_spec P base Hb Vb (S (N.to_nat (xlen a))) (core a) [] Hc) as HL.
+    rewrite xlen_core, val_core in HL. change (map dch []) with (@nil N) in HL.
+    apply HL; [assumption|lia]. }
+  assert (forall mk, val a = 0 ->
+            dec_loop P (S (N.to_nat (xlen a))) (core a) mk [] =
+            Ok (map dch (digits_dec_fuel (S (N.to_nat (xlen a))) (val a) []))) as HZ.
+  { intros mk E. rewrite dec_loop_zero by (try assumption; rewrite val_core; assumption).
+    cbn [digits_dec_fuel]. rewrite E. reflexivity. }
+  assert (forall w v, core a = XF w v ->
+            dec_loop P (S (N.to_nat (xlen a))) (core a)
+              (match f_from_uint w (lenw (wd v)) 8 10 with Ok b => Ok (XF w b) | _ => Panic end) [] =
+            Ok (map dch (digits_dec_fuel (S (N.to_nat (xlen a))) (val a) []))) as HF.
+  { intros w v E. rewrite E in Hc.
+    destruct (N.eqb_spec (lenw (wd v)) 0) as [Hn|Hn].
+    - apply HZ. rewrite <- val_core, E. apply val_no_word; assumption.
+    - destruct (display_base_fixed w (lenw (wd v))) as (base & -> & Hb & Vb); [apply Hc|lia|].
+      apply HL; assumption. }
+  assert ((let! b := d_from_uint 8 10 in dec_loop P (S (N.to_nat (xlen a))) (core a) (Ok (XD b)) []) =
+          Ok (map dch (digits_dec_fuel (S (N.to_nat (xlen a))) (val a) []))) as HD.
+  { destruct display_base_dyn as (b & -> & Hb & Vb). cbn [bind]. apply HL; assumption. }
+  destruct (core a) as [w v|v|fx v] eqn:E; [apply HF; reflexivity|exact HD|exact HD].
+Qed.
+
+(* decimal formatting needs no hypothesis on the number of storage words any more: for `Bvf<I, 0>`
+   (which `Good` admits, with length 0) the value is 0, the loop body never runs, and "0" is printed *)
+Theorem fmt_display_spec P a :
+  Good a -> xlen a < 2 ^ 62 ->
   fmt_display P a = Ok (map (fun d => 48 + d) (digits_dec (val a))).
 Proof.
-  intros Ha Hk Hl. unfold fmt_display.
-  destruct (display_base a Ha Hk) as (base & -> & Hb & Vb). cbn [bind].
-  pose proof (dec_loop_spec P base Hb Vb (S (N.to_nat (xlen a))) (core a) [] (Good_core a Ha)) as HL.
-  rewrite xlen_core, val_core in HL. change (map dch []) with (@nil N) in HL.
+  intros Ha Hl. unfold fmt_display. cbv zeta. rewrite (display_loop P a Ha Hl). cbn [bind].
   pose proof (size_val_le a Ha) as Hs.
-  rewrite HL by (try assumption; lia). cbn [bind]. f_equal. unfold digits_dec.
+  f_equal. unfold digits_dec.
   destruct (N.eqb_spec (val a) 0) as [E|Hnz].
   - rewrite E. reflexivity.
   - rewrite (ddf_fuel _ (S (N.to_nat (N.size (val a)))) (val a) []) by lia.
@@ -493,36 +532,23 @@ Proof.
     destruct s as [|d s']; [contradiction|]. reflexivity.
 Qed.
 
-Lemma fmt_display_counterexample :
-  Good (XF 8 (mkwv [] 0)) /\ xlen (XF 8 (mkwv [] 0)) < 2 ^ 62 /\
-  fmt_display Release (XF 8 (mkwv [] 0)) = Panic /\ fmt_display Debug (XF 8 (mkwv [] 0)) = Panic.
+Theorem x_fmt_digits_display P a :
+  Good a -> xlen a < 2 ^ 62 -> x_fmt_digits P 0 a = Ok (s_fmt 0 (abs a)).
 Proof.
-  split; [|split; [reflexivity|split; reflexivity]].
-  split; [apply canonb_spec; reflexivity|apply std_width_8].
-Qed.
-
-(* every array without a storage word panics in Display *)
-Lemma fmt_display_no_word P w v : lenw (wd v) = 0 -> fmt_display P (XF w v) = Panic.
-Proof.
-  intros H. unfold fmt_display. cbn [core]. rewrite H. unfold f_from_uint.
-  destruct (8 <=? w).
-  - unfold seto. rewrite lenw_zerosw. reflexivity.
-  - change (N.size 10) with 4. rewrite N.mul_0_r. reflexivity.
-Qed.
-
-(* `x_fmt_digits_display` as assigned fails on the same inputs (x_fmt_digits P 0 = fmt_display) *)
-Theorem x_fmt_digits_display_fixed P a :
-  Good a -> XEdit.kind_ok (kind_of a) -> xlen a < 2 ^ 62 -> x_fmt_digits P 0 a = Ok (s_fmt 0 (abs a)).
-Proof.
-  intros Ha Hk Hl. cbn [x_fmt_digits]. rewrite (fmt_display_spec_fixed P a Ha Hk Hl). cbn [bind].
+  intros Ha Hl. cbn [x_fmt_digits]. rewrite (fmt_display_spec P a Ha Hl). cbn [bind].
   rewrite (abs_Good a Ha). reflexivity.
 Qed.
 
-Lemma x_fmt_digits_display_counterexample :
-  x_fmt_digits Release 0 (XF 8 (mkwv [] 0)) = Panic.
-Proof. reflexivity. Qed.
+(* the earlier statements, with the (now superfluous) hypothesis that the kind has a storage word *)
+Theorem fmt_display_spec_fixed P a :
+  Good a -> XEdit.kind_ok (kind_of a) -> xlen a < 2 ^ 62 ->
+  fmt_display P a = Ok (map (fun d => 48 + d) (digits_dec (val a))).
+Proof. intros Ha _ Hl. apply fmt_display_spec; assumption. Qed.
 
-(* the same statements under the name asked for by PROOF_GUIDE.md *)
+Theorem x_fmt_digits_display_fixed P a :
+  Good a -> XEdit.kind_ok (kind_of a) -> xlen a < 2 ^ 62 -> x_fmt_digits P 0 a = Ok (s_fmt 0 (abs a)).
+Proof. intros Ha _ Hl. apply x_fmt_digits_display; assumption. Qed.
+
 Theorem fmt_display_spec_partial P a :
   Good a -> XEdit.kind_ok (kind_of a) -> xlen a < 2 ^ 62 ->
   fmt_display P a = Ok (map (fun d => 48 + d) (digits_dec (val a))).
